@@ -8,6 +8,7 @@ import (
 	"encoding/json"
 	"fmt"
 	"net/http"
+	"net/url"
 	"sort"
 	"strings"
 	"time"
@@ -181,7 +182,9 @@ func suiteAppAuth(e *vh.Env) {
 	e.Op(fmt.Sprintf("store %s %s %s", hx("b2"), hx("rid-bob"), hx("bob@x")), "ok")
 	// end-user routing: who reaches which backend (observed through the datastore keys)
 	for i, u := range []struct{ user, path, want string }{{"alice@x", "/a/1", "b1"}, {"alice@x", "/b/1", ""}, {"bob@x", "/b/1", "b2"}, {"carol@x", "/a/1", ""}, {"carol@x", "/shared/z", "b3"}, {"alice@x", "/shared/z", "b3"}, {"", "/a/1", "401"},
-		{"alice@x", "/a/deep/x", "b6"}, {"alice@x", "/a/dee", "b1"}, {"dave@x", "/d/1", ""}, {"carol@x", "/d/1", "b5"}, {"dave@x", "/shared/1", "b3"}} {
+		{"alice@x", "/a/deep/x", "b6"}, {"alice@x", "/a/dee", "b1"}, {"dave@x", "/d/1", ""}, {"carol@x", "/d/1", "b5"}, {"dave@x", "/shared/1", "b3"},
+		// other spellings of the same paths: routing depends on the path, not on how the client escaped it
+		{"alice@x", "/%61/deep/x", "b6"}, {"alice@x", "/a/d%65ep/x", "b6"}, {"alice@x", "/a/deep%2Fx", "b6"}, {"dave@x", "/%64/1", ""}, {"carol@x", "/sh%61red/z", "b3"}} {
 		rid := fmt.Sprintf("route-%d", i)
 		ch := async(func() (int, http.Header, []byte) { return userCall(u.user, false, rid, "GET", u.path, nil, nil) })
 		var got string
@@ -211,7 +214,8 @@ func suiteAppAuth(e *vh.Env) {
 			if got != "" {
 				obs = hx(got)
 			}
-			e.Op(fmt.Sprintf("lookup %s %s %s", hx(u.user), hx(u.path), live), obs)
+			decoded, _ := url.PathUnescape(u.path)
+			e.Op(fmt.Sprintf("lookup %s %s %s", hx(u.user), hx(decoded), live), obs)
 		}
 		if got != "" && got != "401" {
 			owner := map[string]string{"b1": "alice@x", "b2": "bob@x", "b3": "allUsers", "b4": "dave@x", "b5": "allUsers", "b6": "alice@x"}[got]
